@@ -29,7 +29,7 @@ func genC11(dir, tier string, seed int64) {
 		reps = 200
 	}
 	cw := newCaseWriter(dir, "C11_ops", opHeader("CheckC11"), opFooter,
-		"Cast: all 10x10 numeric (source, target) pairs x value pools (integer extremes of the source, values around the extremes of the target, ties-to-even cases for int->float and float64->float32, +-0, subnormals, +-Inf, NaN for float targets; float->integer only with values whose truncation is representable in the target, incl. above 2^63 for uint64) x shapes of rank 0..3, plus unsupported target codes; ConstantOfShape: every element type as value x shapes rank 1..4 (and invalid: zero/negative extents, two-element value, unknown attribute); Constant: every attribute form (value tensor of every type and rank 0..3, value_float(s), value_int(s) -- zero scalars and all-zero lists included --, refused forms, wrong attribute counts)", false, 300)
+		"Cast: all 10x10 numeric (source, target) pairs x value pools (integer extremes of the source, values around the extremes of the target, ties-to-even cases for int->float and float64->float32, +-0, subnormals, +-Inf, NaN for float targets; float->integer only with values whose truncation is representable in the target, incl. above 2^63 for uint64) x shapes of rank 0..3, plus unsupported target codes (every code in -4..48 outside the ten, the same plus 128, 256 and 65536, 32-bit wraps, the int64 extremes); ConstantOfShape: every element type as value x shapes rank 1..4 (and invalid: zero/negative extents, two-element value, unknown attribute); Constant: every attribute form (value tensor of every type and rank 0..3, value_float(s), value_int(s) -- zero scalars and all-zero lists included --, refused forms, wrong attribute counts)", false, 300)
 
 	// ---------------- Cast ----------------
 	for _, src := range castTypes {
@@ -82,8 +82,14 @@ func genC11(dir, tier string, seed int64) {
 		}
 	}
 	// unsupported targets, including codes that equal a supported one modulo 2^32
-	for _, code := range []int64{0, 8, 9, 10, 14, 15, 16, 99, -1, 1<<32 + 1, 1<<32 + 7, 1<<32 + 11, -(1 << 32) + 6, 1 << 33, math.MaxInt64, math.MinInt64 + 1} {
-		x := mkT(tensor.Float32, []int{2}, []int64{1, 2})
+	unsupported := []int64{0, 8, 9, 10, 14, 15, 16, 99, -1, 1<<32 + 1, 1<<32 + 7, 1<<32 + 11, -(1 << 32) + 6, 1 << 33, math.MaxInt64, math.MinInt64 + 1}
+	for c := int64(-4); c <= 48; c++ { // every code around the enum, in particular the first ones past its end (17.. : the float8 types of later ONNX releases)
+		if c != 1 && c != 2 && c != 3 && c != 4 && c != 5 && c != 6 && c != 7 && c != 11 && c != 12 && c != 13 {
+			unsupported = append(unsupported, c, c+128, c+256, c+1<<16)
+		}
+	}
+	for i, code := range unsupported {
+		x := mkT([]tensor.Dtype{tensor.Float32, tensor.Int64, tensor.Uint8, tensor.Float64}[i%4], []int{2}, []int64{1, 2})
 		emitOp(cw, "Cast", []attr{aInt("to", code)}, func() []tensor.Tensor { return cloneAll([]tensor.Tensor{x}) })
 	}
 	emitOp(cw, "Cast", nil, func() []tensor.Tensor { return []tensor.Tensor{mkT(tensor.Float32, []int{2}, []int64{1, 2})} })
